@@ -1,6 +1,6 @@
 """C16 — P2P messages round-trip through pack and parse for every message type, bytes equal the wire encoding."""
 from vmon.probe import shard_rng, observe
-from vmon.refs import p2p as P2P, txser as RT, blockser as RB, merkle as RM, pmt as RP
+from vmon.refs import p2p as P2P, txser as RT, blockser as RB, merkle as RM, pmt as RP, btgser as RBTG
 from vmon.gen import blockgen as G
 
 PROPERTY = "C16"
@@ -108,7 +108,7 @@ def configurations(tier):
 
 def selftest(rec):
     return {"p2p": P2P.selftest(), "txser": RT.selftest(), "blockser": RB.selftest(), "merkle": RM.selftest(),
-            "pmt": RP.selftest()["closure_cases"]}
+            "pmt": RP.selftest()["closure_cases"], "btgser": RBTG.selftest()}
 
 
 # ------------------------------------------------------------------------------------------- value generators
@@ -312,6 +312,9 @@ def _net(sym):
             from pycoin.symbols.btc import network
         elif sym == "LTC":
             from pycoin.symbols.ltc import network
+        elif sym in ALT_NETWORKS:
+            import importlib
+            network = importlib.import_module("pycoin.symbols." + sym.lower()).network
         else:
             raise ValueError(sym)
         _NETS[sym] = network
@@ -2063,6 +2066,218 @@ def run_longrun(spec, rec, stop_after=None):
         rec.ev("longrun.rounds_above_2^17")
 
 
+# ------------------------------------------------------------------------------------------- the other networks
+#
+# "every peer-to-peer message type the library defines": each network object carries its own packer / parser, built around
+# that network's Block and Tx classes.  The messages that embed a transaction, a header or a block are therefore driven on
+# the networks whose classes are not Bitcoin's as well: BCH (own Tx), GRS (own Tx and Block: other hashes, same wire
+# layout), DOGE and XTN (derived Block class), through the same judge() as BTC / LTC; and BTG, whose header is NOT the
+# 80-byte one (height, 28 reserved bytes, 32-byte nonce, compact-size prefixed Equihash solution: refs/btgser.py), with
+# heights on both sides of the BTG fork height, solution lengths on both sides of the compact-size boundary, and its own
+# judge (judge_btg) because the header has eight fields.
+
+ALT_NETWORKS = ("BCH", "GRS", "DOGE", "XTN", "BTG")
+ALT_NAMES = ("headers", "merkleblock", "block", "tx", "blocktxn", "cmpctblock")
+ALT_PAIRS = [(net, name) for net in ALT_NETWORKS for name in ALT_NAMES if not (net == "BTG" and name in RBTG.MESSAGES)]
+BTG_FORK = RBTG.FORK_HEIGHT
+BTG_HEIGHT_EDGE = (BTG_FORK - 1, BTG_FORK, 0, 0xffffffff, 1, BTG_FORK + 1, 400000, 1 << 31, BTG_FORK - 2, 2 * BTG_FORK)
+BTG_SOLUTION_LEN = (1344, 0, 100, 36, 1, 252, 253, 400)
+BTG_HEADER_ATTRS = (("version", "version"), ("prev", "previous_block_hash"), ("root", "merkle_root"), ("height", "height"),
+                    ("time", "timestamp"), ("bits", "difficulty"), ("nonce", "nonce"), ("solution", "solution"))
+BTG_CLASSES = ("height:below_fork", "height:at_or_above_fork", "height:fork-1", "height:fork", "height:0", "height:2^32-1",
+               "solution:empty", "solution:1344", "solution:below_253", "solution:253_or_more")
+
+
+def grs_single_tx_block(rng):
+    """a Groestlcoin block of ONE transaction: its transaction ids are the single SHA-256 of the serialisation without
+    witness (Groestlcoin's documented departure from Bitcoin), so the root of a one-transaction block is that hash"""
+    import hashlib
+    header, txs = G.rand_block(rng, 1)
+    return {"block": {"header": dict(header, root=hashlib.sha256(RT.serialize(txs[0], with_witness=False)).digest()), "txs": txs}}
+
+
+def btg_header(rng, k, root=None):
+    h = G.rand_header(rng, root=root)
+    if k < 2 * len(BTG_HEIGHT_EDGE) or rng.random() < 0.4:
+        height = BTG_HEIGHT_EDGE[k % len(BTG_HEIGHT_EDGE)]
+    else:
+        height = rng.randrange(BTG_FORK) if rng.random() < 0.5 else rng.randrange(BTG_FORK, 1 << 32)
+    r = rng.random()
+    nonce = G.rbytes(rng, 32) if r < 0.8 else (bytes(32) if r < 0.9 else G.rbytes(rng, 4) + bytes(28))
+    n = BTG_SOLUTION_LEN[(k // 2) % len(BTG_SOLUTION_LEN)] if rng.random() < 0.8 else rng.randrange(600)
+    return {"version": h["version"], "prev": h["prev"], "root": h["root"], "height": height, "time": h["time"], "bits": h["bits"],
+            "nonce": nonce, "solution": G.rbytes(rng, n)}
+
+
+def g_btg(rng, name, k):
+    if name == "headers":
+        n = (1, 2, 0, 3, 5, 1, 253)[k % 7]
+        if n == 253:
+            # a long array: all on one side of the fork height, short solutions
+            return {"headers": [{"header": dict(btg_header(rng, 99), height=BTG_FORK - 1 - i if k % 2 else BTG_FORK + i,
+                                                solution=G.rbytes(rng, i % 3)), "txn_count": i} for i in range(n)]}
+        return {"headers": [{"header": btg_header(rng, k + i), "txn_count": rng.choice([0, 0, 1, rng.choice(CSIZE_EDGE)])} for i in range(n)]}
+    if name == "merkleblock":
+        n = rng.choice([1, 2, 3, 5, 7, 8, 12])
+        txids = G.fake_txids("btg%d" % k, n)
+        matches = [i for i in range(n) if rng.random() < 0.5]
+        total, hashes, fb = RP.build(txids, matches)
+        return {"header": btg_header(rng, k, root=RM.root(txids)), "total_transactions": total, "hashes": hashes, "flags": list(fb)}
+    if name == "block":
+        header, txs = G.rand_block(rng, (1, 2, 3, 1, 4)[k % 5])
+        return {"block": {"header": btg_header(rng, k, root=header["root"]), "txs": txs}}
+    raise KeyError(name)
+
+
+def btg_headers_of(name, fields):
+    if name == "headers":
+        return [e["header"] for e in fields["headers"]]
+    return [fields["header"]] if name == "merkleblock" else [fields["block"]["header"]]
+
+
+def mk_btg_header(N, h):
+    return N.block(version=h["version"], previous_block_hash=h["prev"], merkle_root=h["root"], timestamp=h["time"],
+                   difficulty=h["bits"], nonce=h["nonce"], height=h["height"], solution=h["solution"])
+
+
+def btg_kwargs(N, name, fields):
+    if name == "headers":
+        return {"headers": [(mk_btg_header(N, e["header"]), e["txn_count"]) for e in fields["headers"]]}
+    if name == "merkleblock":
+        return dict(fields, header=mk_btg_header(N, fields["header"]), hashes=list(fields["hashes"]), flags=list(fields["flags"]))
+    blk = mk_btg_header(N, fields["block"]["header"])
+    blk.set_txs([mk_tx(N, t) for t in fields["block"]["txs"]])
+    return {"block": blk}
+
+
+def cmp_btg_header(N, got, want):
+    if not isinstance(got, N.block):
+        return "not a Block"
+    for key, attr in BTG_HEADER_ATTRS:
+        g = getattr(got, attr, None)
+        w = want[key]
+        if isinstance(w, bytes):
+            if not isinstance(g, (bytes, bytearray, memoryview)) or bytes(g) != w:
+                return "header field " + key
+        elif not isinstance(g, int) or g != w:
+            return "header field " + key
+    return None
+
+
+def btg_mismatches(N, name, d, fields):
+    """[(field, why)] for a parsed BTG headers / merkleblock / block message"""
+    if not isinstance(d, dict):
+        return [("*", "not a dict")]
+    bad = []
+    if name == "headers":
+        got = d.get("headers")
+        if not isinstance(got, (list, tuple)) or len(got) != len(fields["headers"]):
+            return [("headers", "array length")]
+        for g, w in zip(got, fields["headers"]):
+            if not isinstance(g, (list, tuple)) or len(g) != 2:
+                return [("headers", "tuple")]
+            r = cmp_btg_header(N, g[0], w["header"]) or cmp_value(N, g[1], w["txn_count"])
+            if r:
+                return [("headers", r)]
+        return bad
+    if name == "merkleblock":
+        r = cmp_btg_header(N, d.get("header"), fields["header"])
+        if r:
+            bad.append(("header", r))
+        for k in ("total_transactions", "hashes", "flags"):
+            r = "missing" if k not in d else cmp_value(N, d[k], fields[k])
+            if r:
+                bad.append((k, r))
+        return bad
+    got, want = d.get("block"), fields["block"]
+    r = cmp_btg_header(N, got, want["header"])
+    if not r:
+        if len(got.txs) != len(want["txs"]):
+            r = "block tx count"
+        else:
+            for g, w in zip(got.txs, want["txs"]):
+                r = r or cmp_tx(N, g, w)
+    return [("block", r)] if r else []
+
+
+def judge_btg(name, fields, rec, sample=False):
+    N = _net("BTG")
+    case = {"altnet": "BTG", "name": name, "fields": fields}
+    want = RBTG.encode(name, fields)
+    if RBTG.decode(name, want) != fields:
+        rec.ev("inconclusive:btg_reference_encoder_and_decoder_disagree")
+        rec.note("refs/btgser: decode(encode(x)) != x for a %s value set (oracle error)" % name)
+        return
+    headers = btg_headers_of(name, fields)
+    rec.case(("BTG", name, want), nontrivial=True)
+    for h in headers:
+        ht, n = h["height"], len(h["solution"])
+        rec.ev("altnet.btg.height:" + ("below_fork" if ht < BTG_FORK else "at_or_above_fork"))
+        if ht in (BTG_FORK - 1, BTG_FORK, 0, 0xffffffff):
+            rec.ev("altnet.btg.height:" + {BTG_FORK - 1: "fork-1", BTG_FORK: "fork", 0: "0", 0xffffffff: "2^32-1"}[ht])
+        rec.ev("altnet.btg.solution:" + ("empty" if n == 0 else "1344" if n == 1344 else "below_253" if n < 253 else "253_or_more"))
+    # the class of the witness the mechanism key names: a header below the height at which BTG's own layout starts
+    tag = ".below_fork_height" if any(h["height"] < BTG_FORK for h in headers) else ""
+    rec.ev("altnet.btg.pack")
+    rec.ev("altnet.btg.pack:" + name)
+    kw = btg_kwargs(N, name, fields)
+    st, got = observe(lambda: N.message.pack(name, **kw))
+    if st != "ok":
+        rec.violation("p2p.altnet.btg.pack_raises%s.%s" % (tag, name), case, got, want)
+    elif got != want:
+        rec.violation("p2p.altnet.btg.pack_bytes_mismatch%s.%s" % (tag, name), case, got, want)
+        # the other half of the statement on what pack DID return: packing then parsing returns the same field values
+        st2, d2 = observe(N.message.parse, name, got)
+        if st2 != "ok":
+            rec.violation("p2p.altnet.btg.parse_of_packed_raises%s.%s" % (tag, name), case, d2, fields)
+        else:
+            bad = btg_mismatches(N, name, d2, fields)
+            if bad:
+                rec.violation("p2p.altnet.btg.pack_then_parse_field_mismatch%s.%s" % (tag, name), case, bad, fields)
+    rec.ev("altnet.btg.parse")
+    rec.ev("altnet.btg.parse:" + name)
+    st, d = observe(N.message.parse, name, want)
+    if st != "ok":
+        rec.violation("p2p.altnet.btg.parse_raises%s.%s" % (tag, name), case, d, fields)
+    else:
+        for k, why in btg_mismatches(N, name, d, fields):
+            rec.violation("p2p.altnet.btg.parse_field_mismatch%s.%s.%s" % (tag, name, k), case, {"why": why}, fields.get(k))
+    if sample:
+        rec.sample({"op": "pack/parse", "net": "BTG", "name": name, "heights": [h["height"] for h in headers][:6],
+                    "bytes": want[:160], "n_bytes": len(want)})
+
+
+def required_altnet():
+    return (["altnet:%s:%s" % p for p in ALT_PAIRS] + ["altnet.btg.pack", "altnet.btg.parse"] +
+            ["altnet.btg.%s:%s" % (op, name) for op in ("pack", "parse") for name in RBTG.MESSAGES] +
+            ["altnet.btg." + c for c in BTG_CLASSES])
+
+
+def run_altnet(spec, rec):
+    part, parts = spec["part"], spec["parts"]
+    thorough = spec["tier"] != "quick"
+    n_btg = parts * (400 if thorough else 20)
+    for name in RBTG.MESSAGES:
+        rng = shard_rng(spec["seed"], PROPERTY, spec["tier"], spec["shard"], salt="btg:" + name)
+        for k in range(part, n_btg, parts):
+            judge_btg(name, g_btg(rng, name, k), rec, sample=(k == part and part == 0))
+    n_alt = parts * (60 if thorough else 3)
+    for i, (net, name) in enumerate(ALT_PAIRS):
+        rng = shard_rng(spec["seed"], PROPERTY, spec["tier"], spec["shard"], salt="altnet:%s:%s" % (net, name))
+        for k in range(part, n_alt, parts):
+            # value sets from k = 9 on: the long-array boundary sets (k < 9) are driven on BTC / LTC
+            fields = grs_single_tx_block(rng) if (net, name) == ("GRS", "block") else GENERATORS[name](rng, 9 + k + i)
+            N = _net(net)
+            st, err = observe(lambda: {key: to_lib(N, v) for key, v in fields.items()})
+            if st != "ok":
+                # the network's own constructors refuse the value set (a GRS block whose root they compute otherwise):
+                # nothing to pack; the required counter stays at zero
+                rec.ev("altnet.value_set_refused_by_constructor:%s:%s" % (net, name))
+                continue
+            judge(net, name, fields, rec)
+            rec.ev("altnet:%s:%s" % (net, name))
+
+
 def run_shard(spec, rec):
     table = table_names()
     check_table(table)
@@ -2110,6 +2325,8 @@ def run_shard(spec, rec):
             judge(net, name, fields, rec, sample=(k == part and part < 3 and name in ("version", "cmpctblock", "addr")), variant=variant)
     rec.require(*required_lengths())
     run_length_cases(spec, rec)
+    rec.require(*required_altnet())
+    run_altnet(spec, rec)
     for h in range(spec.get("histories", 0)):
         run_history({"seed": spec["seed"], "tier": spec["tier"], "shard": spec["shard"], "h": h}, rec)
     if part == 0:
@@ -2131,5 +2348,8 @@ def replay_case(case, rec):
         return
     if "longrun" in case:
         run_longrun(dict(case["longrun"], longrun=case["longrun"]["rounds"]), rec, stop_after=case["round"])
+        return
+    if case.get("altnet") == "BTG":
+        judge_btg(case["name"], case["fields"], rec)
         return
     judge(case["net"], case["name"], case["fields"], rec, variant=case.get("variant"))
